@@ -341,9 +341,12 @@ func TestGenEnvs(t *testing.T) {
 			}
 		}
 		// a fresh, fully signed lock
-		lock, _, _ := freshLock(t, FreshSpec{Version: v, DV: 1 + r.Intn(2), K: 2, N: 3, Seed: 1 + r.Intn(1000), Network: "goerli", Amounts: []int{1, 31}})
-		g.addDefinition("fresh", lock.Definition)
-		g.addLock("fresh", lock)
+		sp := FreshSpec{Version: v, DV: 1 + r.Intn(2), K: 2, N: 3, Seed: 1 + r.Intn(1000), Network: "goerli", Amounts: []int{1, 31}}
+		var lock cluster.Lock
+		if fin, p := withTimeout(30*time.Second, fmt.Sprintf("building the fresh lock %+v", sp), func() { lock, _, _ = freshLock(t, sp) }); fin && p == nil {
+			g.addDefinition("fresh", lock.Definition)
+			g.addLock("fresh", lock)
+		}
 		// random edge-case shapes
 		for i := 0; i < perVersion; i++ {
 			g.addDefinition(fmt.Sprintf("random-def-%d", i), randDefinition(r, v, false))
